@@ -447,3 +447,249 @@ Lemma plot_curves_example :
   plot_curves [1%N; 2%N] (fun t => [([72%N], (t * 10)%N); ([74%N], (t * 10 + 1)%N)]) [[74%N]; [72%N]]
   = Some [([74%N], [11%N; 21%N]); ([72%N], [10%N; 20%N])].
 Proof. vm_compute. reflexivity. Qed.
+
+(* ------------------------------------------------------------------ which curves, in which order (display == "all") *)
+From Coq Require Import Arith Permutation.
+
+Definition key (names : list str) (n : str) : nat :=
+  match index_of n names with Some i => i | None => 0 end.
+
+Fixpoint wsorted {A : Type} (k : A -> nat) (L : list A) : Prop :=
+  match L with
+  | [] => True
+  | a :: r => (forall b, In b r -> k a <= k b) /\ wsorted k r
+  end.
+
+Lemma index_of_none : forall (names : list str) (n : str), index_of n names = None <-> ~ In n names.
+Proof.
+  induction names as [|x r IH]; intro n; cbn [index_of In].
+  - split; [intros _ H; exact H | reflexivity].
+  - destruct (s_eqb n x) eqn:E.
+    + apply s_eqb_eq in E. subst x. split; [discriminate | intro H; exfalso; apply H; left; reflexivity].
+    + apply s_eqb_false in E. destruct (index_of n r) as [i|] eqn:Ei; cbn [option_map].
+      * split; [discriminate|]. intro H. exfalso.
+        assert (Hn : ~ In n r) by (intro Hr; apply H; right; exact Hr).
+        apply IH in Hn. rewrite Ei in Hn. discriminate.
+      * split; [|reflexivity]. intros _ [H|H]; [apply E; symmetry; exact H | apply (proj1 (IH n) Ei); exact H].
+Qed.
+
+Lemma index_of_nth : forall (names : list str) (n : str) (i : nat),
+  index_of n names = Some i -> nth_error names i = Some n.
+Proof.
+  induction names as [|x r IH]; intros n i H; cbn [index_of] in H.
+  - discriminate.
+  - destruct (s_eqb n x) eqn:E.
+    + apply s_eqb_eq in E. injection H as H. subst i x. reflexivity.
+    + destruct (index_of n r) as [j|] eqn:Ej; cbn [option_map] in H; [|discriminate].
+      injection H as H. subst i. cbn [nth_error]. apply IH. exact Ej.
+Qed.
+
+Lemma key_inj : forall (names : list str) (a b : str),
+  In a names -> In b names -> key names a = key names b -> a = b.
+Proof.
+  intros names a b Ha Hb. unfold key.
+  destruct (index_of a names) as [i|] eqn:Ea; [|apply index_of_none in Ea; contradiction].
+  destruct (index_of b names) as [j|] eqn:Eb; [|apply index_of_none in Eb; contradiction].
+  intro Hij. subst j. apply index_of_nth in Ea. apply index_of_nth in Eb. congruence.
+Qed.
+
+Lemma key_cons_other : forall (x : str) (r : list str) (n : str),
+  n <> x -> In n r -> key (x :: r) n = S (key r n).
+Proof.
+  intros x r n Hne Hin. unfold key. cbn [index_of].
+  apply s_eqb_false in Hne. rewrite Hne.
+  destruct (index_of n r) as [i|] eqn:E; [reflexivity|].
+  apply index_of_none in E. contradiction.
+Qed.
+
+Lemma wsorted_mono : forall (A : Type) (k1 k2 : A -> nat) (L : list A),
+  (forall a b, In a L -> In b L -> k1 a <= k1 b -> k2 a <= k2 b) -> wsorted k1 L -> wsorted k2 L.
+Proof.
+  intros A k1 k2. induction L as [|a r IH]; intros Hm Hs; cbn [wsorted] in *.
+  - exact I.
+  - destruct Hs as [H1 H2]. split.
+    + intros b Hb. apply Hm; [left; reflexivity | right; exact Hb | apply H1; exact Hb].
+    + apply IH; [|exact H2]. intros a' b' Ha' Hb'. apply Hm; right; assumption.
+Qed.
+
+Lemma names_wsorted : forall names : list str, NoDup names -> wsorted (key names) names.
+Proof.
+  induction names as [|x r IH]; intro Hnd; cbn [wsorted].
+  - exact I.
+  - inversion Hnd as [|x' r' Hx Hr]; subst. split.
+    + intros b _. unfold key at 1. cbn [index_of]. rewrite s_eqb_refl. apply Nat.le_0_l.
+    + apply wsorted_mono with (k1 := key r); [|apply IH; exact Hr].
+      intros a b Ha Hb Hle.
+      assert (Hax : a <> x) by (intro; subst; contradiction).
+      assert (Hbx : b <> x) by (intro; subst; contradiction).
+      rewrite (key_cons_other x r a Hax Ha), (key_cons_other x r b Hbx Hb). lia.
+Qed.
+
+Lemma wsorted_filter : forall (A : Type) (k : A -> nat) (f : A -> bool) (L : list A),
+  wsorted k L -> wsorted k (filter f L).
+Proof.
+  intros A k f. induction L as [|a r IH]; cbn [filter wsorted]; intro Hs.
+  - exact I.
+  - destruct Hs as [H1 H2]. destruct (f a); cbn [wsorted].
+    + split; [|apply IH; exact H2]. intros b Hb. apply filter_In in Hb. apply H1. apply Hb.
+    + apply IH. exact H2.
+Qed.
+
+Lemma wsorted_unique : forall (A : Type) (k : A -> nat) (L1 L2 : list A),
+  (forall a b, In a L1 -> In b L1 -> k a = k b -> a = b) ->
+  NoDup L1 -> NoDup L2 -> (forall x, In x L1 <-> In x L2) ->
+  wsorted k L1 -> wsorted k L2 -> L1 = L2.
+Proof.
+  intros A k. induction L1 as [|a r1 IH]; intros L2 Hinj Hn1 Hn2 Hiff Hs1 Hs2.
+  - destruct L2 as [|b r2]; [reflexivity|]. exfalso. apply (proj2 (Hiff b)). left. reflexivity.
+  - destruct L2 as [|b r2].
+    + exfalso. apply (proj1 (Hiff a)). left. reflexivity.
+    + cbn [wsorted] in Hs1, Hs2. destruct Hs1 as [Ha1 Hs1]. destruct Hs2 as [Hb2 Hs2].
+      inversion Hn1 as [|a' r1' Hna Hnr1]; subst. inversion Hn2 as [|b' r2' Hnb Hnr2]; subst.
+      assert (Eab : a = b).
+      { destruct (proj1 (Hiff a) (or_introl eq_refl)) as [E|Hin]; [symmetry; exact E|].
+        destruct (proj2 (Hiff b) (or_introl eq_refl)) as [E|Hin2]; [exact E|].
+        apply Hinj; [left; reflexivity | right; exact Hin2 |].
+        apply Nat.le_antisymm; [apply Ha1; exact Hin2 | apply Hb2; exact Hin]. }
+      subst b. f_equal. apply IH; try assumption.
+      * intros a' b' Ha' Hb'. apply Hinj; right; assumption.
+      * intro x. split; intro Hx.
+        -- destruct (proj1 (Hiff x) (or_intror Hx)) as [E|Hin]; [subst x; contradiction | exact Hin].
+        -- destruct (proj2 (Hiff x) (or_intror Hx)) as [E|Hin]; [subst x; contradiction | exact Hin].
+Qed.
+
+Lemma ins_by_perm : forall (kn : nat * str) (L : list (nat * str)), Permutation (kn :: L) (ins_by kn L).
+Proof.
+  intros kn. induction L as [|x r IH]; cbn [ins_by].
+  - apply Permutation_refl.
+  - destruct (Nat.leb (fst kn) (fst x)).
+    + apply Permutation_refl.
+    + eapply perm_trans; [apply perm_swap | apply perm_skip; exact IH].
+Qed.
+
+Lemma sort_perm : forall l : list (nat * str), Permutation l (fold_right ins_by [] l).
+Proof.
+  induction l as [|kn l IH]; cbn [fold_right].
+  - apply perm_nil.
+  - eapply perm_trans; [apply perm_skip; exact IH | apply ins_by_perm].
+Qed.
+
+Lemma ins_by_sorted : forall (kn : nat * str) (L : list (nat * str)),
+  wsorted fst L -> wsorted fst (ins_by kn L).
+Proof.
+  intros kn. induction L as [|x r IH]; cbn [ins_by]; intro Hs.
+  - cbn [wsorted]. split; [intros b []|exact I].
+  - cbn [wsorted] in Hs. destruct Hs as [H1 H2].
+    destruct (Nat.leb (fst kn) (fst x)) eqn:E.
+    + apply Nat.leb_le in E. cbn [wsorted]. split; [|split; assumption].
+      intros b [Hb|Hb]; [subst b; exact E | specialize (H1 b Hb); lia].
+    + apply Nat.leb_gt in E. cbn [wsorted]. split; [|apply IH; exact H2].
+      intros b Hb. apply (Permutation_in b (Permutation_sym (ins_by_perm kn r))) in Hb.
+      destruct Hb as [Hb|Hb]; [subst b; lia | apply H1; exact Hb].
+Qed.
+
+Lemma sort_sorted : forall l : list (nat * str), wsorted fst (fold_right ins_by [] l).
+Proof.
+  induction l as [|kn l IH]; cbn [fold_right].
+  - exact I.
+  - apply ins_by_sorted. exact IH.
+Qed.
+
+Lemma wsorted_map_snd : forall (k : str -> nat) (P : list (nat * str)),
+  (forall p, In p P -> fst p = k (snd p)) -> wsorted fst P -> wsorted k (map snd P).
+Proof.
+  intros k. induction P as [|a r IH]; cbn [map wsorted]; intros Hk Hs.
+  - exact I.
+  - destruct Hs as [H1 H2]. split.
+    + intros b Hb. apply in_map_iff in Hb. destruct Hb as [p [Ep Hp]]. subst b.
+      rewrite <- (Hk a (or_introl eq_refl)), <- (Hk p (or_intror Hp)). apply H1. exact Hp.
+    + apply IH; [|exact H2]. intros p Hp. apply Hk. right. exact Hp.
+Qed.
+
+Lemma index_pairs : forall (input names : list str),
+  (forall n, In n input -> In n names) ->
+  opt_all (map (fun n => option_map (fun i => (i, n)) (index_of n names)) input)
+  = Some (map (fun n => (key names n, n)) input).
+Proof.
+  intros input names Hsub. apply opt_all_some. rewrite map_map. apply map_ext_in.
+  intros n Hn. unfold key. destruct (index_of n names) as [i|] eqn:E; [reflexivity|].
+  apply index_of_none in E. exfalso. apply E. apply Hsub. exact Hn.
+Qed.
+
+Lemma l_mem_str_in : forall (s : str) (l : list str), l_mem_str s l = true <-> In s l.
+Proof.
+  intros s l. unfold l_mem_str. rewrite existsb_exists. split.
+  - intros [x [Hx E]]. apply s_eqb_eq in E. subst x. exact Hx.
+  - intro H. exists s. split; [exact H | apply s_eqb_refl].
+Qed.
+
+Lemma dataset_order_spec : forall (input names : list str),
+  NoDup names -> NoDup input -> (forall n, In n input -> In n names) ->
+  sort_list_according_to_dataset input names = OK (filter (fun n => l_mem_str n input) names).
+Proof.
+  intros input names Hnn Hni Hsub. unfold sort_list_according_to_dataset.
+  rewrite (index_pairs input names Hsub). f_equal.
+  set (l := map (fun n => (key names n, n)) input).
+  assert (Hperm : Permutation input (map snd (fold_right ins_by [] l))).
+  { eapply perm_trans; [|apply Permutation_map; apply sort_perm].
+    unfold l. rewrite map_map. cbn [snd]. rewrite map_id. apply Permutation_refl. }
+  apply wsorted_unique with (k := key names).
+  - intros a b Ha Hb. apply key_inj; apply Hsub.
+    + apply (Permutation_in a (Permutation_sym Hperm)). exact Ha.
+    + apply (Permutation_in b (Permutation_sym Hperm)). exact Hb.
+  - apply (Permutation_NoDup Hperm). exact Hni.
+  - apply NoDup_filter. exact Hnn.
+  - intro x. rewrite filter_In, l_mem_str_in. split.
+    + intro Hx. apply (Permutation_in x (Permutation_sym Hperm)) in Hx. split; [apply Hsub; exact Hx | exact Hx].
+    + intros [_ Hx]. apply (Permutation_in x Hperm). exact Hx.
+  - apply wsorted_map_snd; [|apply sort_sorted].
+    intros p Hp. apply (Permutation_in p (Permutation_sym (sort_perm l))) in Hp.
+    unfold l in Hp. apply in_map_iff in Hp. destruct Hp as [n [En _]]. subst p. reflexivity.
+  - apply wsorted_filter. apply names_wsorted. exact Hnn.
+Qed.
+
+Lemma opt_all_none : forall (A : Type) (l : list (option A)), opt_all l = None <-> In None l.
+Proof.
+  intros A. induction l as [|x l IH]; cbn [opt_all In].
+  - split; [discriminate | intros []].
+  - destruct x as [a|].
+    + destruct (opt_all l) as [s|] eqn:E.
+      * split; [discriminate|]. intros [H|H]; [discriminate|]. apply IH in H. discriminate.
+      * split; [|reflexivity]. intros _. right. apply IH. reflexivity.
+    + split; [intros _; left; reflexivity | reflexivity].
+Qed.
+
+Lemma dataset_order_keyerror : forall (input names : list str),
+  (exists n, In n input /\ ~ In n names) <-> sort_list_according_to_dataset input names = Raise KeyError.
+Proof.
+  intros input names. unfold sort_list_according_to_dataset.
+  destruct (opt_all (map (fun n => option_map (fun i => (i, n)) (index_of n names)) input)) as [l|] eqn:E.
+  - split; [|discriminate]. intros [n [Hin Hnot]]. exfalso.
+    assert (Hn : In None (map (fun n => option_map (fun i => (i, n)) (index_of n names)) input)).
+    { apply in_map_iff. exists n. split; [|exact Hin]. apply index_of_none in Hnot. rewrite Hnot. reflexivity. }
+    apply opt_all_none in Hn. rewrite E in Hn. discriminate.
+  - split; [reflexivity|]. intros _. apply opt_all_none in E. apply in_map_iff in E.
+    destruct E as [n [En Hin]]. exists n. split; [exact Hin|]. apply index_of_none.
+    destruct (index_of n names) as [i|]; [discriminate | reflexivity].
+Qed.
+
+Lemma plot_display_all_spec : forall (order : str) (decayed names : list str),
+  NoDup names -> NoDup decayed -> (forall n, In n decayed -> In n names) ->
+  plot_display_all order decayed names =
+    if s_eqb order s_dataset then OK (filter (fun n => l_mem_str n decayed) names)
+    else if s_eqb order s_alphabetical then OK decayed
+    else Raise ValueError.
+Proof.
+  intros order decayed names Hnn Hnd Hsub. unfold plot_display_all.
+  destruct (s_eqb order s_dataset); [|reflexivity].
+  apply dataset_order_spec; assumption.
+Qed.
+
+Lemma dataset_order_example :
+  sort_list_according_to_dataset [[3%N]; [1%N]; [2%N]] [[1%N]; [9%N]; [2%N]; [3%N]] = OK [[1%N]; [2%N]; [3%N]].
+Proof. vm_compute. reflexivity. Qed.
+
+(* the two order keywords are the literals of the source (String is imported last: it shadows [length]) *)
+From Coq Require Import String.
+Lemma order_literals : s_dataset = s2l "dataset"%string /\ s_alphabetical = s2l "alphabetical"%string.
+Proof. split; vm_compute; reflexivity. Qed.
